@@ -23,6 +23,7 @@ package main
 
 import (
 	"context"
+	"database/sql"
 	"encoding/json"
 	"fmt"
 	"io"
@@ -55,6 +56,12 @@ type env struct {
 	store map[string][]int64 // relpath -> row times (µs; nullT = NULL); the harness's own record
 	now   int64
 	polN  int
+	be      *storage.LocalBackend
+	rootDir string
+	pols    map[string]int64 // named policies (kept across runs and handler restarts) -> id
+	crashed map[string]bool  // named policies with a leftover `running` execution row
+	rgs     map[string]int   // relpath -> number of parquet row groups (only recorded when > 1)
+	sdb     *sql.DB          // the harness's own connection to the policy/execution SQLite file
 }
 
 func must(err error) {
@@ -80,7 +87,82 @@ func newEnv(c *vh.Ctx) *env {
 	// on the same DuckDB + storage for in-place rewrites between retention runs.
 	dh := api.NewDeleteHandler(db, be, &config.DeleteConfig{Enabled: true, ConfirmationThreshold: 1 << 30, MaxRowsPerDelete: 1 << 30}, nil, filepath.Join(root, "_tmp"), logger)
 	dh.RegisterRoutes(app)
-	return &env{c: c, root: data, db: db, h: h, app: app, store: map[string][]int64{}, used: map[string]bool{}}
+	return &env{c: c, root: data, db: db, h: h, app: app, store: map[string][]int64{}, used: map[string]bool{},
+		be: be, rootDir: root, pols: map[string]int64{}, crashed: map[string]bool{}, rgs: map[string]int{}}
+}
+
+// opRestart: the server process is restarted — a NEW RetentionHandler (and routes) over the same
+// policy/execution database, DuckDB and storage.
+func (e *env) opRestart() {
+	logger := zerolog.New(io.Discard).Level(zerolog.Disabled)
+	e.h.Close()
+	h, err := api.NewRetentionHandler(e.be, e.db, &config.RetentionConfig{Enabled: true, DBPath: filepath.Join(e.rootDir, "retention.db")}, nil, nil, logger)
+	must(err)
+	app := fiber.New(fiber.Config{DisableStartupMessage: true})
+	h.RegisterRoutes(app)
+	dh := api.NewDeleteHandler(e.db, e.be, &config.DeleteConfig{Enabled: true, ConfirmationThreshold: 1 << 30, MaxRowsPerDelete: 1 << 30}, nil, filepath.Join(e.rootDir, "_tmp"), logger)
+	dh.RegisterRoutes(app)
+	e.h, e.app = h, app
+	e.c.Op("restart", "ok")
+	e.c.Tag("history:restart")
+}
+
+// opCrash leaves the persistent state a killed run leaves behind for the named policy:
+//
+//	start     killed right after recordExecutionStart: a `running` execution row, nothing deleted
+//	complete  killed right before recordExecutionComplete: the latest execution row (of a run that did
+//	          all its deletions) is still `running`
+//
+// (a kill in the middle of the deletion loop = `start` plus some of the eligible files already gone,
+// which the caller produces with rm ops). Written through the harness's own SQLite connection with
+// the very statement recordExecutionStart uses.
+func (e *env) opCrash(pol, point string) {
+	if e.sdb == nil {
+		d, err := sql.Open("sqlite3", filepath.Join(e.rootDir, "retention.db"))
+		must(err)
+		e.sdb = d
+	}
+	id := e.pols[pol]
+	switch point {
+	case "start":
+		_, err := e.sdb.Exec(`INSERT INTO retention_executions (policy_id, execution_time, status, cutoff_date) VALUES (?, CURRENT_TIMESTAMP, 'running', ?)`, id, time.Unix(0, e.now).UTC().Format(time.RFC3339))
+		must(err)
+	case "complete":
+		_, err := e.sdb.Exec(`UPDATE retention_executions SET status = 'running' WHERE id = (SELECT MAX(id) FROM retention_executions WHERE policy_id = ?)`, id)
+		must(err)
+	}
+	e.crashed[pol] = true
+	e.c.Op("crash "+pol+" "+point, "ok")
+	e.c.Tag("history:crash-" + point)
+}
+
+// opFileGen writes a time-sorted parquet file of n rows (start + k*step µs) with a small row group size,
+// i.e. a file with SEVERAL row groups (like a compacted day file with > 122880 rows).
+func (e *env) opFileGen(rel string, start, step int64, n, rg int) []int64 {
+	if e.used[rel] {
+		panic("harness bug: path re-created: " + rel)
+	}
+	e.used[rel] = true
+	full := filepath.Join(e.root, rel)
+	must(os.MkdirAll(filepath.Dir(full), 0o755))
+	q := fmt.Sprintf("COPY (SELECT make_timestamp(CAST(%d + i * %d AS BIGINT)) AS \"time\", i AS v FROM range(%d) r(i) ORDER BY i) TO '%s' (FORMAT PARQUET, ROW_GROUP_SIZE %d)", start, step, n, full, rg)
+	_, err := e.db.DB().Exec(q)
+	must(err)
+	ts := make([]int64, n)
+	for k := range ts {
+		ts[k] = start + int64(k)*step
+	}
+	e.store[rel] = ts
+	var groups int
+	must(e.db.DB().QueryRow(fmt.Sprintf("SELECT count(DISTINCT row_group_id) FROM parquet_metadata('%s')", full)).Scan(&groups))
+	if groups > 1 {
+		e.rgs[rel] = groups
+		e.c.Tag("layout:multi-row-group-file")
+	} else {
+		e.c.Tag("layout:multi-row-group-file:FAILED-single-group")
+	}
+	e.c.Op(fmt.Sprintf("filegen %s %d %d %d %d", rel, start, step, n, rg), "ok")
+	return ts
 }
 
 func (e *env) close() {
@@ -293,20 +375,31 @@ type runRes struct {
 	files int
 }
 
-func (e *env) run(mode, db, meas string, ret, buf int) runRes {
-	e.polN++
-	body := map[string]any{"name": fmt.Sprintf("p%d", e.polN), "database": db, "retention_days": ret, "buffer_days": buf, "is_active": true}
-	if meas != "*" {
-		body["measurement"] = meas
-	}
-	st, b := e.http("POST", "/api/v1/retention/", body)
-	if st != 201 {
-		return runRes{false, "rejected", 0, 0}
-	}
+func (e *env) run(mode, db, meas string, ret, buf int, polName string) runRes {
 	var pol struct {
 		ID int64 `json:"id"`
 	}
-	must(json.Unmarshal(b, &pol))
+	if id, ok := e.pols[polName]; ok && polName != "" {
+		pol.ID = id
+	} else {
+		e.polN++
+		name := fmt.Sprintf("p%d", e.polN)
+		if polName != "" {
+			name = polName
+		}
+		body := map[string]any{"name": name, "database": db, "retention_days": ret, "buffer_days": buf, "is_active": true}
+		if meas != "*" {
+			body["measurement"] = meas
+		}
+		st, b := e.http("POST", "/api/v1/retention/", body)
+		if st != 201 {
+			return runRes{false, "rejected", 0, 0}
+		}
+		must(json.Unmarshal(b, &pol))
+		if polName != "" {
+			e.pols[polName] = pol.ID
+		}
+	}
 	var r execResp
 	switch mode {
 	case "sched":
@@ -371,12 +464,21 @@ func maxOf(ts []int64) (int64, bool) {
 }
 
 func (e *env) opRun(mode, db, meas string, ret, buf int, replay *strings.Builder, lastDry *runRes) runRes {
+	return e.opRunP("", mode, db, meas, ret, buf, replay, lastDry)
+}
+
+// opRunP: pol == "" creates a fresh policy per run (op `run`); otherwise the NAMED policy is created on
+// first use and re-used afterwards (op `prun`, which repeats the policy's parameters so it is self-contained).
+func (e *env) opRunP(pol, mode, db, meas string, ret, buf int, replay *strings.Builder, lastDry *runRes) runRes {
 	before := map[string][]int64{}
 	for k, v := range e.store {
 		before[k] = v
 	}
-	res := e.run(mode, db, meas, ret, buf)
+	res := e.run(mode, db, meas, ret, buf, pol)
 	op := fmt.Sprintf("run %s %s %s %d %d", mode, db, meas, ret, buf)
+	if pol != "" {
+		op = fmt.Sprintf("prun %s %s %s %s %d %d", mode, pol, db, meas, ret, buf)
+	}
 	e.c.Op(op, res.out)
 	fmt.Fprintf(replay, "%s   -- %s\n", op, res.out)
 	after := map[string]bool{}
@@ -412,6 +514,9 @@ func (e *env) opRun(mode, db, meas string, ret, buf int, replay *strings.Builder
 		for _, t := range ts {
 			if t != nullT && t*1000 >= cutoff {
 				e.c.Fail("fresh-row-deleted:deleteOldFiles", fmt.Sprintf("%s deleted although it holds a row with time %dµs >= cutoff %dns", rel, t, cutoff), replay.String())
+				if g := e.rgs[rel]; g > 1 {
+					e.c.Fail("unexpired-rows-deleted:multi-row-group-file", fmt.Sprintf("%s (%d row groups, time-sorted) was deleted although rows in its later row groups are at/after the cutoff (e.g. %dµs >= %dns)", rel, g, t, cutoff), replay.String())
+				}
 				break
 			}
 		}
@@ -439,6 +544,9 @@ func (e *env) opRun(mode, db, meas string, ret, buf int, replay *strings.Builder
 			}
 			if m, ok := maxOf(ts); ok && m*1000 < cutoff {
 				e.c.Fail("stale-file-kept:deleteOldFiles", fmt.Sprintf("%s remains after a successful run although all its rows are older than the cutoff (max %dµs, cutoff %dns)", rel, m, cutoff), replay.String())
+				if pol != "" && e.crashed[pol] {
+					e.c.Fail("expired-files-kept:stale-running-execution", fmt.Sprintf("policy %s has a leftover `running` execution row from a killed run; a later run reported success but %s (all rows older than the cutoff) is still stored", pol, rel), replay.String())
+				}
 			}
 		}
 		if lastDry != nil && lastDry.ok && (lastDry.rows != res.rows || lastDry.files != res.files) {
@@ -722,6 +830,82 @@ func main() {
 			return res.files > 0 || res2.files > 0
 		})
 	}
+	// multi-row-group files (time-sorted, ROW_GROUP_SIZE 2048, 3–4 groups): the cutoff falls between row
+	// groups / inside a later group / inside the first group / after the whole file
+	for k, off := range []int64{2048, 2047, 3000, 4096, 100, 7000} {
+		for _, mode := range []string{"http", "sched"} {
+			if !c.Thorough() && (k+len(mode))%2 != int(c.Seed%2) {
+				continue
+			}
+			runCase(fmt.Sprintf("edge:multi-row-group-%d", off), func(replay *strings.Builder) bool {
+				now := base // phase 0: cutoff is a whole µs
+				cutUs := (now - int64(37)*86400*1_000_000_000) / 1000
+				setNow(replay, now)
+				step := int64(1_000_000)
+				start := cutUs - off*step // row `off` sits exactly at the cutoff
+				n := 6144
+				last := []int64{start + int64(n-1)*step}
+				rel := e.partPath(g, D, "m", last, cutUs, true)
+				e.opFileGen(rel, start, step, n, 2048)
+				fmt.Fprintf(replay, "filegen %s %d %d %d 2048   -- %d time-sorted rows, 1 s apart, row %d exactly at the cutoff\n", rel, start, step, n, n, off)
+				d := e.opRun("dry", D, "m", 30, 7, replay, nil)
+				res := e.opRun(mode, D, "m", 30, 7, replay, &d)
+				return res.files > 0
+			})
+		}
+	}
+	// crash histories: a run of a NAMED policy is killed (leftover `running` execution row), the server
+	// restarts, later scheduled runs under an advancing clock must still delete every expired file
+	for k, point := range []string{"start", "mid", "complete"} {
+		for _, later := range []string{"sched", "http"} {
+			if !c.Thorough() && (k+len(later))%2 != int(c.Seed%2) && point != "start" {
+				continue
+			}
+			runCase("edge:crash-"+point, func(replay *strings.Builder) bool {
+				pol := fmt.Sprintf("crashpol%d", caseNo)
+				now := base + 11
+				cutUs := (now - int64(37)*86400*1_000_000_000) / 1000
+				setNow(replay, now)
+				var olds []string
+				for i := 0; i < 3; i++ {
+					ts := []int64{cutUs - int64(i+1)*hour - 5, cutUs - int64(i+1)*hour - 9}
+					p := e.partPath(g, D, "m", ts, cutUs, false)
+					addFile(replay, p, ts)
+					olds = append(olds, p)
+				}
+				soon := []int64{cutUs + 10*1_000_000, cutUs + 20*1_000_000} // expires after the clock moved on
+				ps := e.partPath(g, D, "m", soon, cutUs, false)
+				addFile(replay, ps, soon)
+				fr := []int64{cutUs + 30*day}
+				addFile(replay, e.partPath(g, D, "m", fr, cutUs, false), fr)
+				any := false
+				switch point {
+				case "start":
+					e.opRunP(pol, "dry", D, "m", 30, 7, replay, nil) // creates the policy
+					e.opCrash(pol, "start")
+				case "mid":
+					e.opRunP(pol, "dry", D, "m", 30, 7, replay, nil)
+					e.opCrash(pol, "start")
+					e.opRm(olds[0]) // the killed run had already removed one eligible file
+					fmt.Fprintf(replay, "rm %s\n", olds[0])
+				case "complete":
+					r0 := e.opRunP(pol, "sched", D, "m", 30, 7, replay, nil) // all deletions done …
+					any = r0.files > 0
+					e.opCrash(pol, "complete") // … but the process died before recordExecutionComplete
+				}
+				fmt.Fprintf(replay, "crash %s %s   -- run killed: leftover `running` execution row\n", pol, point)
+				e.opRestart()
+				replay.WriteString("restart\n")
+				for step := 0; step < 2; step++ {
+					now += 3600 * 1_000_000_000
+					setNow(replay, now)
+					res := e.opRunP(pol, later, D, "m", 30, 7, replay, nil)
+					any = any || res.files > 0
+				}
+				return any
+			})
+		}
+	}
 	// policy validation gate
 	runCase("edge:policy-gate", func(replay *strings.Builder) bool {
 		setNow(replay, base)
@@ -767,6 +951,19 @@ func main() {
 					}
 				}
 			}
+			if r.Chance(10) {
+				step := vh.Pick(r, []int64{1_000_000, 500_000, 3_000_000})
+				off := int64(vh.Pick(r, []int{-50, 100, 2047, 2048, 2049, 3000, 4096, 5000, 6143, 6144, 7000}))
+				start := cutUs - off*step
+				rel := e.partPath(g, dbs[0], measNames[0], []int64{start + 6143*step}, cutUs, true)
+				e.opFileGen(rel, start, step, 6144, 2048)
+				fmt.Fprintf(replay, "filegen %s %d %d 6144 2048\n", rel, start, step)
+				files = append(files, rel)
+			}
+			namedPol, polDB, polMeas := "", "", ""
+			if r.Chance(30) {
+				namedPol = fmt.Sprintf("pol%d", caseNo)
+			}
 			anyDel := false
 			steps := r.Range(1, 4)
 			for s := 0; s < steps; s++ {
@@ -796,7 +993,28 @@ func main() {
 						}
 					}
 				}
-				res := e.opRun(vh.Pick(r, []string{"http", "sched"}), db, meas, ret, buf, replay, d)
+				var res runRes
+				if namedPol != "" {
+					// a named policy keeps its database / measurement filter for the whole history
+					if s == 0 {
+						polDB, polMeas = db, meas
+					}
+					if d != nil && (db != polDB || meas != polMeas) {
+						d = nil
+					}
+					res = e.opRunP(namedPol, vh.Pick(r, []string{"http", "sched"}), polDB, polMeas, ret, buf, replay, d)
+					if s+1 < steps && r.Chance(50) {
+						point := vh.Pick(r, []string{"start", "complete"})
+						e.opCrash(namedPol, point)
+						fmt.Fprintf(replay, "crash %s %s\n", namedPol, point)
+						if r.Chance(70) {
+							e.opRestart()
+							replay.WriteString("restart\n")
+						}
+					}
+				} else {
+					res = e.opRun(vh.Pick(r, []string{"http", "sched"}), db, meas, ret, buf, replay, d)
+				}
 				anyDel = anyDel || res.files > 0
 				if s+1 < steps {
 					// history between runs of the same handler: the DELETE API rewrites files in place, a restore
